@@ -46,6 +46,146 @@ Proof.
   rewrite IH by (simpl in H; lia). ring.
 Qed.
 
+(* ---------- helpers: extensionality, zero, finite sums pass through the transform ---------- *)
+Lemma dftn_ext ws : forall ns x y k, (forall i, x i = y i) -> dftn ws ns x k = dftn ws ns y k.
+Proof.
+  induction ws as [|w ws IH]; intros ns x y k H; [apply H|].
+  destruct ns as [|n ns]; [apply H|]. destruct k as [|kk k]; [apply H|]. simpl.
+  apply ksum_ext. intros j _. f_equal. apply IH. intro i. apply H.
+Qed.
+
+Lemma dftn_zero ws : forall ns k, dftn ws ns (fun _ => k0) k = k0.
+Proof.
+  induction ws as [|w ws IH]; intros ns k; [reflexivity|].
+  destruct ns as [|n ns]; [reflexivity|]. destruct k as [|kk k]; [reflexivity|]. simpl.
+  rewrite (ksum_ext K k0 kadd n _ (fun _ => k0)); [apply (ksum_zero K k0 k1 kadd kmul ksub kopp KR)|].
+  intros j _. rewrite IH. ring.
+Qed.
+
+Lemma dftn_ksum ws ns m (c : nat -> K) (y : nat -> list nat -> K) k :
+  dftn ws ns (fun i => ksum m (fun j => c j * y j i)) k = ksum m (fun j => c j * dftn ws ns (y j) k).
+Proof.
+  induction m; simpl; [apply dftn_zero|].
+  rewrite <- IHm.
+  rewrite (dftn_ext ws ns _ (fun i => k1 * ksum m (fun j => c j * y j i) + c m * y m i)) by (intro; ring).
+  rewrite dftn_linear. ring.
+Qed.
+
+(* ---------- inversion over any number of axes ---------- *)
+(* product of the axis lengths, in K *)
+Fixpoint prodn (ns : list nat) : K :=
+  match ns with [] => k1 | n :: ns' => ofnat k0 k1 kadd n * prodn ns' end.
+
+(* one axis: transforming with u and then with v recovers n times the data *)
+Definition inv1 (u v : K) (n : nat) : Prop :=
+  forall (y : nat -> K) (r : nat), (r < n)%nat ->
+  ksum n (fun k => kpow v (k * r) * ksum n (fun j => kpow u (j * k) * y j)) = y r * ofnat k0 k1 kadd n.
+
+Fixpoint goodp (us vs : list K) (ns r : list nat) : Prop :=
+  match us, vs, ns, r with
+  | [], [], [], [] => True
+  | u :: us', v :: vs', n :: ns', j :: r' => inv1 u v n /\ (j < n)%nat /\ goodp us' vs' ns' r'
+  | _, _, _, _ => False
+  end.
+
+Theorem dftn_inverse_gen us : forall vs ns r x, goodp us vs ns r ->
+  dftn vs ns (fun k => dftn us ns x k) r = x r * prodn ns.
+Proof.
+  induction us as [|u us IH]; intros vs ns r x H.
+  - destruct vs, ns, r; simpl in H; try contradiction. simpl. ring.
+  - destruct vs as [|v vs], ns as [|n ns], r as [|j0 r]; simpl in H; try contradiction.
+    destruct H as [H1 [Hj Hg]]. simpl.
+    rewrite (ksum_ext K k0 kadd n _
+               (fun k => kpow v (k * j0) * ksum n (fun j => kpow u (j * k) * (x (j :: r) * prodn ns)))).
+    + rewrite (H1 (fun j => x (j :: r) * prodn ns) j0 Hj). ring.
+    + intros k _. f_equal.
+      etransitivity;
+        [exact (dftn_ksum vs ns n (fun j => kpow u (j * k))
+                          (fun j ks => dftn us ns (fun js => x (j :: js)) ks) r)|].
+      apply ksum_ext. intros j _. f_equal. apply (IH vs ns r (fun js => x (j :: js)) Hg).
+Qed.
+
+(* the two instances of inv1: (w, w^-1) and (w^-1, w), from the one-axis theorems *)
+Section OneAxis.
+Variables (w : K) (n : nat).
+Hypothesis Hn : (1 <= n)%nat.
+Hypothesis Hroot : kpow w n = k1.
+Hypothesis Horth : forall d, (0 < d < n)%nat -> ksum n (fun k => kpow w (d * k)%nat) = k0.
+
+Lemma inv1_fwd : inv1 w (winv k1 kmul w n) n.
+Proof.
+  intros y r Hr.
+  rewrite <- (dft_inverse K k0 k1 kadd kmul ksub kopp KR w n Hn Hroot Horth y r Hr).
+  apply ksum_ext. intros k _. unfold dft. rewrite (Nat.mul_comm k r).
+  rewrite (ksum_ext K k0 kadd n (fun j => kpow w (j * k) * y j) (fun j => y j * kpow w (j * k))) by (intros; ring).
+  ring.
+Qed.
+
+Lemma inv1_bwd : inv1 (winv k1 kmul w n) w n.
+Proof.
+  intros y r Hr.
+  rewrite <- (dft_inverse_r K k0 k1 kadd kmul ksub kopp KR w n Hn Hroot Horth y r Hr).
+  unfold dft. apply ksum_ext. intros k _.
+  rewrite (ksum_ext K k0 kadd n (fun j => kpow (winv k1 kmul w n) (j * k) * y j)
+                    (fun m => y m * kpow (winv k1 kmul w n) (k * m))).
+  - ring.
+  - intros m _. rewrite (Nat.mul_comm m k). ring.
+Qed.
+End OneAxis.
+
+(* roots of unity along every axis, and an in-range multi-index *)
+Fixpoint roots (ws : list K) (ns r : list nat) : Prop :=
+  match ws, ns, r with
+  | [], [], [] => True
+  | w :: ws', n :: ns', j :: r' =>
+      (1 <= n)%nat /\ kpow w n = k1 /\
+      (forall d, (0 < d < n)%nat -> ksum n (fun k => kpow w (d * k)%nat) = k0) /\
+      (j < n)%nat /\ roots ws' ns' r'
+  | _, _, _ => False
+  end.
+
+Fixpoint winvs (ws : list K) (ns : list nat) : list K :=
+  match ws, ns with
+  | w :: ws', n :: ns' => winv k1 kmul w n :: winvs ws' ns'
+  | _, _ => []
+  end.
+
+Lemma roots_goodp_fwd ws : forall ns r, roots ws ns r -> goodp ws (winvs ws ns) ns r.
+Proof.
+  induction ws as [|w ws IH]; intros ns r H; destruct ns, r; simpl in *; try contradiction; [exact I|].
+  destruct H as [Hn [Hr [Ho [Hj H]]]]. split; [apply inv1_fwd; assumption|]. split; [exact Hj | apply IH; exact H].
+Qed.
+
+Lemma roots_goodp_bwd ws : forall ns r, roots ws ns r -> goodp (winvs ws ns) ws ns r.
+Proof.
+  induction ws as [|w ws IH]; intros ns r H; destruct ns, r; simpl in *; try contradiction; [exact I|].
+  destruct H as [Hn [Hr [Ho [Hj H]]]]. split; [apply inv1_bwd; assumption|]. split; [exact Hj | apply IH; exact H].
+Qed.
+
+(* ifftn o fftn = N id  and  fftn o ifftn = N id   (N = product of the axis lengths; the
+   normalised inverse (1/N) ... is a two-sided inverse wherever N is invertible) *)
+Theorem dftn_inverse ws ns r x : roots ws ns r ->
+  dftn (winvs ws ns) ns (fun k => dftn ws ns x k) r = x r * prodn ns.
+Proof. intro H. apply dftn_inverse_gen. apply roots_goodp_fwd. exact H. Qed.
+
+Theorem dftn_inverse_r ws ns k X : roots ws ns k ->
+  dftn ws ns (fun r => dftn (winvs ws ns) ns X r) k = X k * prodn ns.
+Proof. intro H. apply dftn_inverse_gen. apply roots_goodp_bwd. exact H. Qed.
+
 End DFTN.
 Arguments dftn {K}.
 Arguments ksumn {K}.
+Arguments prodn {K}.
+Arguments roots {K}.
+Arguments winvs {K}.
+
+(* the hypotheses of the n-d inversion are satisfiable: Z, two axes of length 2 with w = -1 *)
+From Coq Require Import ZArith.
+Lemma roots_nonvacuous :
+  roots 0%Z 1%Z Z.add Z.mul [(-1)%Z; (-1)%Z] [2; 2] [1; 0].
+Proof.
+  assert (A : forall d, (0 < d < 2)%nat ->
+            ksum 0%Z Z.add 2 (fun k => kpow 1%Z Z.mul (-1)%Z (d * k)) = 0%Z).
+  { intros d H. assert (d = 1) by lia. subst d. reflexivity. }
+  simpl. repeat split; try lia; exact A.
+Qed.
